@@ -6,6 +6,7 @@ CONSTANTS
   devs = {"leftfds_zero_pending"}
   Total <- MCTotal
   TooLarge <- MCTooLarge
+  Skip <- MCSkip
 INIT Init
 NEXT Next
 INVARIANTS Prefix FdsOwn SeqIncreasing RejectWithoutReading Complete NoFdsError
